@@ -1,7 +1,7 @@
 """Reader path-consistency (contradiction rule): a value read from the image into a local that is USED on some returning
 path of the reader must be used on EVERY returning path that follows the read.  (An early `return sketch;` placed after
 total_weight/offset were read but before they are stored restores a sketch without them.)"""
-from astu import C, ctxt, gt_pair, eq_const, strip, strip_all, walk, txt, short, stmts_of, functions_by
+from astu import C, ctxt, gt_pair, eq_const, reach, reach_txt, ctext, strip, strip_all, walk, txt, short, stmts_of, functions_by
 from flow import Flow
 from vlib.core import ob
 
